@@ -116,7 +116,7 @@ func (e *Enc) applyCall(v ssa.Value, c *ssa.CallCommon, args []TV, in ssa.Instru
 		site = fmt.Sprintf("%s@%d", short, ord)
 	}
 	// default precondition of repository functions: pointer arguments are non-nil
-	if fn != nil && fn.Pkg != nil && e.w.isRepoPkg(fn.Pkg.Pkg.Path()) && !e.noPanics {
+	if fn != nil && fn.Pkg != nil && e.w.isRepoPkg(fn.Pkg.Pkg.Path()) {
 		for i, p := range fn.Params {
 			if i >= len(args) {
 				break
@@ -125,8 +125,13 @@ func (e *Enc) applyCall(v ssa.Value, c *ssa.CallCommon, args []TV, in ssa.Instru
 				if ctr != nil && ctrNilable(ctr, p.Name()) {
 					continue
 				}
-				o := e.addObl("call-pre", fmt.Sprintf("call-pre:%s:nonnil.%s", site, p.Name()), "nonnil."+p.Name(), guard, not(eq(args[i].S, "0")))
-				o.Pos = e.w.fset.Position(in.Pos())
+				if !e.noPanics {
+					o := e.addObl("call-pre", fmt.Sprintf("call-pre:%s:nonnil.%s", site, p.Name()), "nonnil."+p.Name(), guard, not(eq(args[i].S, "0")))
+					o.Pos = e.w.fset.Position(in.Pos())
+				}
+				// checked (or, with -nopanics, assumed): the argument is non-nil from here on
+				e.assert(imp(guard, not(eq(args[i].S, "0"))))
+				e.ptrNonNil[args[i].S] = true
 			}
 		}
 	}
@@ -216,16 +221,21 @@ func (e *Enc) applyCall(v ssa.Value, c *ssa.CallCommon, args []TV, in ssa.Instru
 		e.frameCheckCallAll(site, in, guard)
 		e.havocAllArgs(args)
 	} else {
+		// all targets denote locations of the pre-state: evaluate them before anything is havocked
+		var targets []modTarget
 		for _, m := range ctr.Modifies {
 			tg, err := e.modTargets(m, env)
 			if err != nil {
 				e.contractError("modifies:"+site, err)
 				continue
 			}
-			for _, t := range tg {
-				e.frameCheckTarget(site, t, in, guard)
-				e.havocTarget(t)
-			}
+			targets = append(targets, tg...)
+		}
+		for _, t := range targets {
+			e.frameCheckTarget(site, t, in, guard)
+		}
+		for _, t := range targets {
+			e.havocTarget(t)
 		}
 		if !ctr.Pure {
 			oa := e.get(e.st, e.allocKey())
@@ -374,6 +384,28 @@ func (e *Enc) ghostKey(g *GhostDecl) string {
 func (e *Enc) modTargets(m Expr, env *Env) ([]modTarget, error) {
 	switch x := m.(type) {
 	case *CallE:
+		if ms := e.w.cs.ModSets[x.Fun]; ms != nil {
+			if len(ms.Params) != len(x.Args) {
+				return nil, fmt.Errorf("modset %s: wrong argument count", x.Fun)
+			}
+			c := env.child()
+			for i, p := range ms.Params {
+				a, err := e.evalExpr(x.Args[i], env)
+				if err != nil {
+					return nil, err
+				}
+				c.vars[p] = a
+			}
+			var out []modTarget
+			for _, t := range ms.Targets {
+				tg, err := e.modTargets(t, c)
+				if err != nil {
+					return nil, err
+				}
+				out = append(out, tg...)
+			}
+			return out, nil
+		}
 		if g := e.w.cs.Ghosts[x.Fun]; g != nil {
 			k := e.ghostKey(g)
 			if len(x.Args) == 0 {
@@ -521,6 +553,10 @@ func (e *Enc) allowedByFrame(t modTarget) string {
 	}
 	if t.idx != "" && t.key == "G|built" {
 		ds = append(ds, fmt.Sprintf("(> %s %s)", t.idx, alloc0))
+	}
+	if t.idx != "" && strings.HasPrefix(t.key, "G|") && strings.HasPrefix(e.compKeySort(t.key), "(Array Val ") {
+		// ghost state of an object allocated during this call (e.g. a private buffer used as io.Writer)
+		ds = append(ds, fmt.Sprintf("(and ((_ is VRef) %s) (> (vid %s) %s))", t.idx, t.idx, alloc0))
 	}
 	for _, o := range e.ownTargets() {
 		if o.key != t.key {
@@ -748,6 +784,30 @@ func (e *Enc) assumeRequires() {
 		return
 	}
 	env := e.entryEnv()
+	for _, h := range e.ctr.Holds {
+		obj, err := e.evalExpr(h, env)
+		if err != nil {
+			e.contractError("holds", err)
+			continue
+		}
+		tn := ""
+		if p, ok := obj.T.(*types.Pointer); ok {
+			if n, ok := p.Elem().(*types.Named); ok {
+				tn = "*" + n.Obj().Name()
+			}
+		}
+		for _, iv := range e.w.cs.Invs {
+			if iv.Type != tn {
+				continue
+			}
+			ienv := e.newEnv(iv.Pkg)
+			ienv.st, ienv.old = e.entry, e.entry
+			ienv.vars[iv.RecvName] = obj
+			if t, err := e.evalBool(iv.Clause.E, ienv); err == nil {
+				e.assert(imp(not(eq(obj.S, "0")), t))
+			}
+		}
+	}
 	for _, r := range e.ctr.Requires {
 		if strings.HasPrefix(r.Label, "nilable.") {
 			continue
@@ -893,14 +953,14 @@ func (e *Enc) appendBuiltin(v ssa.Value, c *ssa.CallCommon, in ssa.Instruction) 
 		na := e.fresh("appA", "(Array Int "+es+")")
 		e.assert(eq(na, newA))
 		newA = na
-		e.set(k, store(e.get(e.st, k), r, newA))
+		e.setFresh(k, store(e.get(e.st, k), r, newA))
 		e.setVal(v, fmt.Sprintf("(mkslice %s (+ (slen %s) %d))", r, s.S, n))
 		return
 	}
 	na := e.fresh("appA", "(Array Int "+es+")")
 	e.assert(fmt.Sprintf("(forall ((i Int)) (! (=> (and (<= 0 i) (< i (slen %s))) (= (select %s i) (select %s i))) :pattern ((select %s i))))", s.S, na, oldA, na))
 	e.assert(fmt.Sprintf("(forall ((i Int)) (! (=> (and (<= 0 i) (< i (slen %s))) (= (select %s (+ (slen %s) i)) (select %s i))) :pattern ((select %s (+ (slen %s) i)))))", t.S, na, s.S, tA, na, s.S))
-	e.set(k, store(e.get(e.st, k), r, na))
+	e.setFresh(k, store(e.get(e.st, k), r, na))
 	e.setVal(v, fmt.Sprintf("(mkslice %s (+ (slen %s) (slen %s)))", r, s.S, t.S))
 }
 
